@@ -219,6 +219,12 @@ def gen_case(rng, tier):
     if sub_mode == 'user':
         case['user'] = dict(drop=rng.random() < 0.7, extra=rng.random() < 0.6, replace=rng.random() < 0.4,
                             cols=rng.random() < 0.3, seed=rng.randint(0, 10 ** 6), den=den)
+    if rng.random() < 0.2:
+        # position columns under other names (y_um, x_um: positions converted to microns), handed over through pos_columns;
+        # the drift table then carries those names and subtract_drift must shift exactly the columns the drift table names
+        case['suffix'] = rng.choice(['_um', '_px', '0'])
+        if case['sub_mode'] == 'own':
+            case['sub_mode'] = 'explicit'         # subtract_drift(traj) alone has no way to learn the names
     return case
 
 
@@ -399,6 +405,29 @@ def run_case(case):
     tol = tolerance(case)
     ftol = float(tol)
     pc = case['pos_columns']
+    sfx = case.get('suffix') or ''
+    ren = {nm: nm + sfx for nm in names}
+    unren = {v: k for k, v in ren.items()}
+
+    class _API:
+        """the two functions as the caller uses them; with a suffix the table is handed over under the other column names and the
+        results are read back under the standard ones"""
+        @staticmethod
+        def compute_drift(tr, pos_columns=None):
+            if not sfx:
+                return tp_real.compute_drift(tr) if pos_columns is None else tp_real.compute_drift(tr, pos_columns=pos_columns)
+            res = tp_real.compute_drift(tr.rename(columns=ren), pos_columns=[ren[c] for c in (pos_columns or names)])
+            return res.rename(columns=unren)
+
+        @staticmethod
+        def subtract_drift(tr, drift=None):
+            if not sfx:
+                return tp_real.subtract_drift(tr) if drift is None else tp_real.subtract_drift(tr, drift)
+            if drift is None:
+                drift = _API.compute_drift(tr)
+            return tp_real.subtract_drift(tr.rename(columns=ren), drift.rename(columns=ren)).rename(columns=unren)
+    tp_real = tp
+    tp = _API
     # ---- compute_drift
     d = tp.compute_drift(traj) if pc is None else tp.compute_drift(traj, pos_columns=list(pc))
     ch = changed(traj, snap)
@@ -539,6 +568,8 @@ def process(chk, cases):
         chk.count(json.dumps(case, sort_keys=True), nontrivial(case, info))
         chk.tally('kind=' + case['kind'])
         chk.tally('index=' + case['index'])
+        if case.get('suffix'):
+            chk.tally('position columns under other names (pos_columns given)')
         chk.tally('ndim=%d' % case['ndim'])
         chk.tally('subtract mode=' + case['sub_mode'])
         if case['edge']:
